@@ -119,52 +119,66 @@ class Ctx:
         return type(x) is type(want) and x == want
 
     def failure_matches(self, pat, x):
-        from twisted.python.failure import Failure
-
-        return isinstance(x, Failure) and x.value is self.excs[pat[0]]
+        return isinstance(x, lib()["Failure"]) and x.value is self.excs[pat[0]]
 
     def result_matches(self, fired, pat, x):
         return self.failure_matches(pat, x) if fired == "err" else self.value_matches(pat, x)
 
 
+class Rec:
+    """Inner matcher that records what it was given."""
+
+    def __init__(self, inner, calls):
+        self.inner = inner
+        self.calls = calls
+
+    def __str__(self):
+        return "Rec(%s)" % (self.inner,)
+
+    def match(self, x):
+        self.calls.append(x)
+        return self.inner.match(x)
+
+
+_lib = {}
+
+
+def lib():
+    if not _lib:
+        from testtools.matchers import AfterPreprocessing, Always, Equals, IsInstance, Never
+        from testtools.twistedsupport import failed, has_no_result, succeeded
+        from testtools.twistedsupport._deferred import DeferredNotFired, extract_result
+        from twisted.internet import defer
+        from twisted.python.failure import Failure
+
+        _lib.update(locals())
+    return _lib
+
+
 def make_matcher(ctx, arg):
-    from testtools.matchers import AfterPreprocessing, Always, Equals, IsInstance, Never
-    from testtools.twistedsupport import failed, has_no_result, succeeded
-
+    L = lib()
     calls = []
-
-    class Rec:
-        def __init__(self, inner):
-            self.inner = inner
-
-        def __str__(self):
-            return "Rec(%s)" % (self.inner,)
-
-        def match(self, x):
-            calls.append(x)
-            return self.inner.match(x)
-
     k, i = arg["k"], arg["i"]
     if k == "noresult":
-        return has_no_result(), calls
+        return L["has_no_result"](), calls
     inner = {
-        "always": lambda: Always(),
-        "never": lambda: Never(),
-        "eqNone": lambda: Equals(None),
-        "eqOne": lambda: Equals(1),
-        "eqNest": lambda: Equals([("a", None), [1]]),
-        "isE1": lambda: AfterPreprocessing(lambda f: f.value, IsInstance(ValueError)),
-        "isE2": lambda: AfterPreprocessing(lambda f: f.value, IsInstance(UserError)),
+        "always": lambda: L["Always"](),
+        "never": lambda: L["Never"](),
+        "eqNone": lambda: L["Equals"](None),
+        "eqOne": lambda: L["Equals"](1),
+        "eqNest": lambda: L["Equals"]([("a", None), [1]]),
+        "isE1": lambda: L["AfterPreprocessing"](lambda f: f.value, L["IsInstance"](ValueError)),
+        "isE2": lambda: L["AfterPreprocessing"](lambda f: f.value, L["IsInstance"](UserError)),
     }[i]()
-    return (succeeded if k == "succ" else failed)(Rec(inner)), calls
+    return (L["succeeded"] if k == "succ" else L["failed"])(Rec(inner, calls)), calls
 
 
 def _replay(hist):
     """Runs one behaviour on a fresh Deferred.  Returns (mismatch or None, tags, expect_handled, inspected):
     only plain data leaves this frame (no exception, Failure, Mismatch or Deferred), so that the Deferred is
     garbage as soon as the frame is."""
-    from testtools.twistedsupport._deferred import DeferredNotFired, extract_result
-    from twisted.internet import defer
+    L = lib()
+    DeferredNotFired, extract_result, defer = L["DeferredNotFired"], L["extract_result"], L["defer"]
 
     ctx = Ctx()
     d = defer.Deferred()
@@ -214,6 +228,11 @@ def _replay(hist):
                 inspected = True
             if arg["k"] == "succ" and pre["fired"] == "err":
                 inspected = True
+            if arg["k"] in ("succ", "failed") and pre["fired"] == "err" and isinstance(d.result, L["Failure"]):
+                # Twisted logs at collection time iff the current result is still a Failure: say so here rather
+                # than let the following steps disagree with a model that assumes the failure was consumed
+                bad = (i, "HandledAfter", "failure marked handled", "current result is still the Failure", "unhandled:" + arg["k"])
+                break
         else:  # extract
             try:
                 r = extract_result(d)
@@ -376,9 +395,11 @@ def run(tier, pid="C20"):
 
     if tier == "quick":
         jobs = [
-            ("df_exp4.cfg", {}),
+            ("df_mc6.cfg", dict(noexport=True)),
+            ("df_exp3.cfg", {}),
+            ("df_exp4Q.cfg", {}),
             ("df_exp5.cfg", {}),
-            ("df_sim.cfg", dict(simulate=dict(num=400, depth=8), seed=rep.seed + 1)),
+            ("df_sim.cfg", dict(simulate=dict(num=300, depth=8), seed=rep.seed + 1)),
         ]
     else:
         jobs = [
@@ -388,7 +409,6 @@ def run(tier, pid="C20"):
             ("df_exp7.cfg", {}),
             ("df_sim.cfg", dict(simulate=dict(num=6000, depth=8), seed=rep.seed + 1)),
         ]
-    gc.freeze()
     try:
         for cfg, kw in jobs:
             noexport = kw.pop("noexport", False)
@@ -399,6 +419,9 @@ def run(tier, pid="C20"):
             if noexport:
                 continue
             n = 0
+            # everything alive now (TLC's parsed output above all) is exempt from the per-behaviour collections
+            gc.collect()
+            gc.freeze()
             for hist in tlc.exported(r):
                 if not hist:
                     continue
@@ -415,6 +438,7 @@ def run(tier, pid="C20"):
                 if bad:
                     i, clause, exp, obs, key = bad
                     rep.violation(clause, "%s:%s" % (clause, key), {"behaviour": hist[: i + 1], "cfg": cfg}, expected=exp, observed=obs)
+            gc.unfreeze()
             r.printed = []
             if n == 0:
                 raise tlc.MachineryError("C20 %s exported no behaviours" % cfg)
